@@ -81,21 +81,75 @@ Qed.
 
 (* ---- xtime.Time ---- *)
 
-(* time.Parse("Z07:00", t.Format("Z07:00")) has t's zone offset (offsets are
-   whole minutes in every zone since 1972; see the known finding on offsets
-   with seconds for file.Meta) *)
+(* the zone offset text, as a function of the offset in minutes *)
+Definition fmt_zone (zone : Z) : bytes :=
+  let a := Z.to_N (Z.abs zone) in
+  (if (zone <? 0)%Z then "-"%byte else "+"%byte) :: two_digits (a / 60) ++ ":"%byte :: two_digits (a mod 60).
+
+Lemma format_tzo_zone off : format_tzo off = if Z.eqb off 0 then str "Z" else fmt_zone (Z.quot off 60).
+Proof. reflexivity. Qed.
+
+Definition zone_range : list Z := map (fun n => (Z.of_nat n - 1439)%Z) (seq 0 2879).
+
+Lemma zone_range_complete m : (-1440 < m < 1440)%Z -> In m zone_range.
+Proof.
+  intro H. unfold zone_range. apply in_map_iff. exists (Z.to_nat (m + 1439)). split; [lia|].
+  apply in_seq. lia.
+Qed.
+
+Definition optZ_eqb (a b : option Z) : bool :=
+  match a, b with Some x, Some y => Z.eqb x y | None, None => true | _, _ => false end.
+
+Lemma optZ_eqb_eq a b : optZ_eqb a b = true -> a = b.
+Proof. destruct a, b; cbn; try discriminate; [|reflexivity]. intro H. apply Z.eqb_eq in H. subst; reflexivity. Qed.
+
+Lemma zone_table : forallb (fun m => optZ_eqb (parse_tzo (fmt_zone m)) (Some (m * 60)%Z)) zone_range = true.
+Proof. vm_compute. reflexivity. Qed.
+
+(* every offset within a day, in seconds: the text parses back to the offset in
+   whole minutes (truncated toward zero, as package time formats it) *)
+Lemma parse_format_tzo off : (-86400 < off < 86400)%Z ->
+  parse_tzo (format_tzo off) = Some (Z.quot off 60 * 60)%Z.
+Proof.
+  intro H. rewrite format_tzo_zone. destruct (Z.eqb off 0) eqn:E.
+  - apply Z.eqb_eq in E. subst. reflexivity.
+  - assert (Hm : (-1440 < Z.quot off 60 < 1440)%Z).
+    { pose proof (Z.quot_rem' off 60) as Q. destruct (Z_le_gt_dec 0 off) as [P|P].
+      - pose proof (Z.rem_bound_pos_pos off 60 ltac:(lia) P). lia.
+      - pose proof (Z.rem_bound_pos_neg off 60 ltac:(lia) ltac:(lia)). lia. }
+    apply optZ_eqb_eq.
+    exact (proj1 (forallb_forall _ _) zone_table _ (zone_range_complete _ Hm)).
+Qed.
+
+Lemma parse_format_tzo_minutes off : (-86400 < off < 86400)%Z -> Z.rem off 60 = 0%Z ->
+  parse_tzo (format_tzo off) = Some off.
+Proof.
+  intros H R. rewrite (parse_format_tzo off H). f_equal. pose proof (Z.quot_rem' off 60). lia.
+Qed.
+
+(* time.Parse("Z07:00", text) has the offset the text denotes (package time is
+   an oracle; [parse_tzo] says what the text denotes) *)
+Definition tzo_parse_agrees (o : oracles) : Prop :=
+  forall s off, parse_tzo s = Some off -> exists z, o_tparse o P_tzo s = Ok z /\ t_off z = off.
+
 Definition tzo_roundtrip (o : oracles) (t : tm) : Prop :=
-  exists z, o_tparse o P_tzo (o_tfmt o L_tzo t) = Ok z /\ t_off z = t_off t.
+  exists z, o_tparse o P_tzo (format_tzo (t_off t)) = Ok z /\ t_off z = (Z.quot (t_off t) 60 * 60)%Z.
+
+Lemma tzo_roundtrip_from_agreement o t : tzo_parse_agrees o -> (-86400 < t_off t < 86400)%Z -> tzo_roundtrip o t.
+Proof. intros Ha Hr. exact (Ha _ _ (parse_format_tzo (t_off t) Hr)). Qed.
 
 Definition xtime_dom (o : oracles) (t : tm) : Prop := time_utc_roundtrip o t /\ tzo_roundtrip o t.
 
-Lemma xtime_roundtrip : roundtrip xtime_c xtime_dom (fun t => t).
+(* the zone offset travels in whole minutes *)
+Definition xtime_norm (t : tm) : tm := mktm (t_sec t) (t_nsec t) (Z.quot (t_off t) 60 * 60).
+
+Lemma xtime_roundtrip : roundtrip xtime_c xtime_dom xtime_norm.
 Proof.
   intros o t [Hu [z [Hz Ho]]]. eexists; split; [reflexivity|].
   unfold time_utc_roundtrip in Hu.
-  unfold xtime_c, c_dec, xtime_un, xtime_tr.
-  remember (o_tfmt o L_tzo t) as a eqn:Ea. remember (o_tfmt o L_utc_nano t) as b eqn:Eb.
-  destruct t as [s n f]. cbn in Ho.
+  unfold xtime_c, c_dec, xtime_un, xtime_tr, xtime_norm.
+  remember (format_tzo (t_off t)) as a eqn:Ea. remember (o_tfmt o L_utc_nano t) as b eqn:Eb.
+  destruct t as [s n f]. cbn [t_off t_sec t_nsec] in *.
   destruct a, b; cbn; rewrite ?app_nil_r, Hz; cbn; rewrite Hu; cbn; rewrite Ho; split; reflexivity.
 Qed.
 
